@@ -36,6 +36,7 @@ type hookProgram struct {
 	RetryAfter       string  `json:"retryAfter"`
 	NetErr           bool    `json:"netErr"`
 	OmitStatus       bool    `json:"omitStatus"`
+	EchoParentConditions bool `json:"echoParentConditions"` // template hooks: status.conditions = the parent's current ones
 	CustomizeBody    string  `json:"customizeBody"` // answer of the customize hook (default: no related resources)
 	Reverse          bool    `json:"reverse"`       // template: list the children highest index first
 	FinalizedForImage string `json:"finalizedForImage"` // template, finalizing: finalized iff the parent (revision) has this image
@@ -67,7 +68,7 @@ func (h *hookProgram) answer(url string, req J) (int, map[string]string, []byte,
 	if h.Kind == "template" {
 		return code, hdr, h.templateAnswer(req), false
 	}
-	if h.Kind == "ordered" || h.Kind == "echo" {
+	if h.Kind == "ordered" || h.Kind == "echo" || h.Kind == "echo-meta" {
 		return code, hdr, h.statefulAnswer(req), false
 	}
 	resp := J{}
@@ -146,6 +147,18 @@ func (h *hookProgram) templateAnswer(req J) []byte {
 	} else if !h.OmitStatus {
 		resp["status"] = J{"replicas": n}
 	}
+	if h.EchoParentConditions {
+		st, _ := resp["status"].(J)
+		if st == nil {
+			st = J{"replicas": n}
+			resp["status"] = st
+		}
+		if pst, ok := parent["status"].(map[string]interface{}); ok {
+			if conds, ok := pst["conditions"]; ok {
+				st["conditions"] = runtime.DeepCopyJSONValue(conds)
+			}
+		}
+	}
 	if finalizing, _ := req["finalizing"].(bool); finalizing {
 		if !h.FinalizeKeeps {
 			resp["children"] = A{}
@@ -205,6 +218,23 @@ func (h *hookProgram) statefulAnswer(req J) []byte {
 			if !ready {
 				break
 			}
+		}
+	} else if h.Kind == "echo-meta" {
+		// the hook's own children, each carrying the annotations it was observed with
+		// (bookkeeping annotation included), as a hook that round-trips metadata does
+		for _, c := range h.Children {
+			c2 := runtime.DeepCopyJSON(c)
+			md := c2["metadata"].(map[string]interface{})
+			for _, o := range observed {
+				omd, _ := o["metadata"].(map[string]interface{})
+				if omd == nil || omd["name"] != md["name"] {
+					continue
+				}
+				if ann, ok := omd["annotations"].(map[string]interface{}); ok {
+					md["annotations"] = runtime.DeepCopyJSON(ann)
+				}
+			}
+			cl = append(cl, c2)
 		}
 	} else {
 		seen := map[string]bool{}
@@ -324,6 +354,12 @@ func (w *cworld) applyExt(op extOp) {
 	case "healthy-all": // the fair environment: every object of the kind reports Ready and its own generation
 		for _, o := range w.srv.AllLive() {
 			if o["apiVersion"] == op.APIVersion && o["kind"] == op.Kind {
+				if op.Data != nil && op.Data["bare"] == true {
+					delete(o, "status")
+					delete(md(o), "resourceVersion")
+					w.srv.Seed(o)
+					continue
+				}
 				g, _ := md(o)["generation"].(int64)
 				cond := J{"type": "Ready", "status": "True"}
 				if op.Data != nil {
